@@ -94,17 +94,25 @@ def NoNL (s : String) : Prop := s.toList.all (fun c => c != '\n') = true
 
 instance (s : String) : Decidable (NoNL s) := by unfold NoNL; infer_instance
 
+/-- what follows the magnitude and a blank in `str(q)`: the unit string, or `/ rest` for a unit
+printed `1 / rest` -/
+def showTail (u : String) : List Char :=
+  match stripPrefix? recipPrefix u.toList with
+  | some rest => '/' :: ' ' :: rest
+  | Option.none => u.toList
+
 /-- **Hypotheses about pint** for one scalar quantity `(m, u)` (magnitude token, unit string):
-`str(q)` has no newline; and either the magnitude is not nan, `str(q)` does not start with
+`str(q)` has no newline; and either the magnitude is not nan, its token does not start with
 `nan` and `units(str(q))` is the quantity again (magnitude re-read as `norm m u`), or the
-magnitude is nan, the unit string carries no surrounding whitespace and `units(u)` is a
-quantity in `u`. -/
+magnitude is nan and `units(...)` of what follows `nan` in `str(q)`, stripped, is a quantity in
+`u` (for an ordinary unit string that is `units(u)`, see `QOk_nan_of_unit`; for a unit printed
+`1 / x` it is `units("/ x")`, which the real pint refuses — candidate finding B). -/
 def QOk (P : Pint) (m u : String) : Prop :=
   NoNL (showQ m u) ∧
   ((m ≠ "nan" ∧ startsWithNan m.toList = false ∧
       P.parse (showQ m u) = .ok (.quantity (P.norm m u) u)) ∨
-   (m = "nan" ∧ P.norm m u = "nan" ∧ pyStripL (' ' :: u.toList) = u.toList ∧
-      ∃ m', P.parse u = .ok (.quantity m' u)))
+   (m = "nan" ∧ P.norm m u = "nan" ∧
+      ∃ m', P.parse (String.ofList (pyStripL (' ' :: showTail u))) = .ok (.quantity m' u)))
 
 /-- Hypotheses for a bare unit `u`: no newline, `units(u)` is `norm "1" u * u` — and the unit's
 name does not start with `nan` (see `bare_unit_nan_prefix_fails`). -/
@@ -300,10 +308,12 @@ theorem serializeList_strs (ss : List String) :
 
 /-! ## `startswith('nan')` and `strip()` on `str(q)` -/
 
-theorem showQ_toList (m u : String) : (showQ m u).toList = m.toList ++ ' ' :: u.toList := by
-  unfold showQ
-  have : " ".toList = [' '] := by decide
-  simp [String.toList_append, this]
+theorem showQ_toList (m u : String) : (showQ m u).toList = m.toList ++ ' ' :: showTail u := by
+  unfold showQ showTail
+  have h1 : " ".toList = [' '] := by decide
+  have h2 : " / ".toList = [' ', '/', ' '] := by decide
+  cases h : stripPrefix? recipPrefix u.toList <;>
+    simp [String.toList_append, h1, h2, String.toList_ofList]
 
 /-- `str(q)` starts with `nan` only if the magnitude token does -/
 theorem startsWithNan_showQ (m u : String) (h : startsWithNan m.toList = false) :
@@ -320,9 +330,18 @@ theorem startsWithNan_showQ (m u : String) (h : startsWithNan m.toList = false) 
     intro ha hb hc; exact h ha hb hc
 
 theorem nan_showQ_toList (u : String) :
-    (showQ "nan" u).toList = 'n' :: 'a' :: 'n' :: ' ' :: u.toList := by
+    (showQ "nan" u).toList = 'n' :: 'a' :: 'n' :: ' ' :: showTail u := by
   rw [showQ_toList]
   have : "nan".toList = ['n', 'a', 'n'] := by decide
   simp [this]
+
+/-- the nan hypothesis for an ordinary unit string (not printed `1 / x`, no surrounding blanks):
+it is enough that `units(u)` is a quantity in `u` — the prefix test and `strip()` are computed -/
+theorem QOk_nan_of_unit (P : Pint) (u m' : String) (hnl : NoNL (showQ "nan" u))
+    (hrecip : stripPrefix? recipPrefix u.toList = Option.none)
+    (hstrip : pyStripL (' ' :: u.toList) = u.toList) (hnorm : P.norm "nan" u = "nan")
+    (hp : P.parse u = .ok (.quantity m' u)) : QOk P "nan" u := by
+  refine ⟨hnl, Or.inr ⟨rfl, hnorm, m', ?_⟩⟩
+  simp [showTail, hrecip, hstrip, String.ofList_toList, hp]
 
 end Viv.Ser
